@@ -183,6 +183,31 @@ def invariants(gene, db_alleles=None):
                                              f"{sorted(map(str, a.func_muts))}, parent's "
                                              f"retained core variants are "
                                              f"{sorted(map(str, keep))}"))
+    # the sub-alleles of a fused candidate carry exactly the silent variants of the
+    # sub-allele they were derived from that lie in retained regions
+    owner = {}
+    for an, a in gene.alleles.items():
+        if "#" not in an:
+            for mk in a.minors:
+                owner[mk] = an
+    for an, a in gene.alleles.items():
+        if "#" not in an:
+            continue
+        f = an.split("#", 1)[0]
+        if f not in gene.cn_configs:
+            continue
+        for mk, mn in a.minors.items():
+            src = mk.split("#", 1)[1] if "#" in mk else None
+            if src is None or src not in owner:
+                continue
+            pm = gene.alleles[owner[src]].minors[src]
+            keep = {m for m in pm.neutral_muts if gene.region_at(m.pos) and
+                    gene.cn_configs[f].cn[gene.region_at(m.pos)[0]][gene.region_at(m.pos)[1]] > 0}
+            if set(mn.neutral_muts) != keep:
+                probs.append(("partial-minor-content",
+                              f"sub-allele {mk} of fused candidate {an} carries "
+                              f"{sorted(map(str, mn.neutral_muts))}, the retained silent "
+                              f"variants of {src} are {sorted(map(str, keep))}"))
     # a bare left fusion (its own allele has no core variant) is a candidate together with
     # every normal allele's retained part: for each normal major allele some major allele
     # of the fused structure carries exactly its retained core variants
